@@ -10,18 +10,18 @@ pub fn take_except<F, T, Input, Error: ParseError<Input>>(
 ) -> impl FnMut(Input) -> IResult<Input, Input, Error>
 where
     F: Parser<Input, Input, Error>,
-    Input: Clone,
-    T: Clone + Compare<Input>,
+    Input: Clone + InputLength,
+    T: Clone + Compare<Input> + InputLength,
 {
     move |input: Input| {
         let i = input.clone();
         let e = except.clone();
         match parser.parse(i) {
             Ok((rest, value)) => match e.compare_no_case(value.clone()) {
-                CompareResult::Ok => Err(Err::Error(Error::from_error_kind(
-                    input,
-                    ErrorKind::TakeUntil,
-                ))),
+                // `compare_no_case` also answers `Ok` when `value` is a proper prefix of `except`.
+                CompareResult::Ok if e.input_len() == value.input_len() => Err(Err::Error(
+                    Error::from_error_kind(input, ErrorKind::TakeUntil),
+                )),
                 _ => Ok((rest, value)),
             },
             Err(e) => Err(e),
